@@ -160,7 +160,7 @@ package meta
 //@ macro wfEval(y *ifFeatureEval) bool = y != nil && 0 <= y.pos && y.pos <= len(y.expr)
 //@ func (y *ifFeatureEval) eatws()
 //@   mode int
-//@   property C14
+//@   property C14 C11
 //@   requires wfEval(y)
 //@   assigns y.pos
 //@   loop 1 invariant wfEval(y) && y.pos >= old(y.pos)
@@ -169,7 +169,7 @@ package meta
 //@   ensures y.pos == len(y.expr) || y.expr[y.pos] != ' '
 //@ func (y *ifFeatureEval) next() string
 //@   mode int
-//@   property C14
+//@   property C14 C11
 //@   requires wfEval(y)
 //@   assigns y.pos
 //@   loop 1 invariant wfEval(y) && start <= y.pos && start >= old(y.pos)
@@ -179,21 +179,21 @@ package meta
 //@   ensures [progress] old(y.pos) < len(y.expr) ==> y.pos > old(y.pos)
 //@ func (y *ifFeatureEval) pop() bool
 //@   mode int
-//@   property C14
+//@   property C14 C11
 //@   requires y != nil
 //@   assigns y.stack, y.lastErr
 //@   ensures old(len(y.stack)) == 0 ==> y.lastErr != nil && !result
 //@   ensures backing(y.stack) == old(backing(y.stack))
 //@ func (y *ifFeatureEval) push(b bool)
 //@   mode int
-//@   property C14
+//@   property C14 C11
 //@   requires y != nil
 //@   assigns y.stack, elems(y.stack)
 //@   ensures len(y.stack) == old(len(y.stack)) + 1
 //@   ensures backing(y.stack) == old(backing(y.stack)) || fresh(y.stack)
 //@ func (y *ifFeatureEval) eval(greedy bool)
 //@   mode int
-//@   property C14
+//@   property C14 C11
 //@   requires wfEval(y)
 //@   assigns y.pos, y.stack, y.lastErr, elems(y.stack)
 //@   decreases len(y.expr) - y.pos
@@ -202,7 +202,7 @@ package meta
 //@   ensures wfEval(y) && y.pos >= old(y.pos) && (backing(y.stack) == old(backing(y.stack)) || fresh(y.stack))
 //@ func (y *IfFeature) Evaluate(enabled map[string]*Feature) (bool, error)
 //@   mode int
-//@   property C14
+//@   property C14 C11
 //@   requires y != nil
 //@   assigns nothing
 
